@@ -190,5 +190,5 @@ def generate(ck=None):
     parsed = parse_file(REPO / "pint" / "default_en.txt")
     reg = ("(* generated by harness/t1_defs.py — do not edit *)\n"
            "From PintV Require Import Model.UC Model.Eval Model.Registry Gen.DefaultDefs.\n"
-           "Definition default_reg : reg := match load default_raw with Ok r => r | Err _ => empty_reg end.\n")
+           "Definition default_reg : reg := match elab default_raw with Ok r => r | Err _ => empty_reg end.\n")
     return {"Gen/DefaultDefs.v": emit(parsed), "Gen/DefaultReg.v": reg}
